@@ -57,36 +57,36 @@ type StoreWrite struct {
 }
 
 type concCfg struct {
-	kind       string
-	clients    int
-	keys       int
-	opsPer     int
-	maxDelayUs int
-	faultPct   int  // % of write batches answered with a definite storage error
-	uncertainPct int // % of write batches answered 'outcome unknown' (half of them applied)
-	futurePct  int  // % of guarded writes that name a far-future expectation
-	readers    int  // concurrent list readers (snapshot stability)
-	noIdle     bool // production sequencer timing
-	compactor  bool // a compaction loop (Compact(committed - small lag)) runs next to the clients
-	initStates []string
+	kind         string
+	clients      int
+	keys         int
+	opsPer       int
+	maxDelayUs   int
+	faultPct     int  // % of write batches answered with a definite storage error
+	uncertainPct int  // % of write batches answered 'outcome unknown' (half of them applied)
+	futurePct    int  // % of guarded writes that name a far-future expectation
+	readers      int  // concurrent list readers (snapshot stability)
+	noIdle       bool // production sequencer timing
+	compactor    bool // a compaction loop (Compact(committed - small lag)) runs next to the clients
+	initStates   []string
 }
 
 type concRun struct {
-	cfg     concCfg
-	n       *harness.Node
-	eng     *harness.Engine
-	w       *harness.Wrap
-	keys    []string
-	init    *harness.Model // versions written during set-up (sequential)
-	ops     []*COp
-	mu      sync.Mutex
-	store   []StoreWrite
-	stamp   int64
-	online  []string // online monitor violations
-	oooDone int64    // commits that completed out of allocation order
-	maxDone uint64
-	floor   uint64 // compaction revision used in set-up (0 if none)
-	faultOn int32
+	cfg         concCfg
+	n           *harness.Node
+	eng         *harness.Engine
+	w           *harness.Wrap
+	keys        []string
+	init        *harness.Model // versions written during set-up (sequential)
+	ops         []*COp
+	mu          sync.Mutex
+	store       []StoreWrite
+	stamp       int64
+	online      []string // online monitor violations
+	oooDone     int64    // commits that completed out of allocation order
+	maxDone     uint64
+	floor       uint64 // compaction revision used in set-up (0 if none)
+	faultOn     int32
 	compactions int64
 }
 
